@@ -152,6 +152,32 @@ def tagged(n, t):
              lambda x, t=t: "{ let inner = %s.value(); %s }" % (x, t.view("inner")), lifetime=False, default=False)
 
 
+def boxed(t):
+    """`Box<T>`: encodes as T, never nil itself (is_nil / nil are not forwarded)."""
+    return T("Box<%s>" % t.rust, "Ty::Opaque(Box::new(%s))" % t.ty, "Box::new(%s)" % t.gen,
+             lambda x, t=t: "{ let inner = &**%s; %s }" % (x, t.view("inner")), lifetime=False, default=False)
+
+
+def cow_owned(t):
+    """`Cow<'static, T>` of a sized T: encodes as T, decodes into `Owned`, never nil itself."""
+    return T("std::borrow::Cow<'static, %s>" % t.rust, "Ty::Opaque(Box::new(%s))" % t.ty,
+             "{ let v: %s = %s; std::borrow::Cow::Owned(v) }" % (t.rust, t.gen),
+             lambda x, t=t: "{ let inner = &**%s; %s }" % (x, t.view("inner")), lifetime=False, default=False)
+
+
+def shared_ref(t):
+    """`&'a T` (encode only): `Encode for &T` forwards everything including `is_nil`, so the field
+    behaves like a field of type T.  The referent is leaked (a few hundred small values per run)."""
+    return T("&'a %s" % t.rust, t.ty, "{ let v: %s = %s; let r: &'static %s = Box::leak(Box::new(v)); r }" % (t.rust, t.gen, t.rust),
+             lambda x, t=t: "{ let inner = &**%s; %s }" % (x, t.view("inner")), lifetime=True, default=False)
+
+
+def mut_ref(t):
+    """`&'a mut T` (encode only), like `shared_ref`."""
+    return T("&'a mut %s" % t.rust, t.ty, "{ let v: %s = %s; Box::leak(Box::new(v)) }" % (t.rust, t.gen),
+             lambda x, t=t: "{ let inner = &**%s; %s }" % (x, t.view("inner")), lifetime=True, default=False)
+
+
 def vec(t):
     if t.borrow:
         b = lambda x, is_b, t=t: (lambda inner: "for s in %s.iter() { %s }" % (x, inner) if inner else None)(t.borrow("s", is_b))
@@ -281,7 +307,7 @@ def emit_type(td):
             vs.append("%s %s %s," % (" ".join(va), vn, emit_fields_decl(vfields, vshape, pub="")))
         out.append("pub enum %s%s { %s }" % (td.name, dlt, " ".join(vs)))
     if td.encode_only:
-        out.append("impl<'b, C> minicbor::Decode<'b, C> for %s { fn decode(_: &mut minicbor::Decoder<'b>, _: &mut C) -> Result<Self, minicbor::decode::Error> { Err(minicbor::decode::Error::message(\"encode-only type\")) } }" % td.name)
+        out.append("impl<%s'b, C> minicbor::Decode<'b, C> for %s%s { fn decode(_: &mut minicbor::Decoder<'b>, _: &mut C) -> Result<Self, minicbor::decode::Error> { Err(minicbor::decode::Error::message(\"encode-only type\")) } }" % ("'a, " if td.lifetime else "", td.name, lt))
     # family
     out.append("pub struct %sFam; impl Fam for %sFam { const NAME: &'static str = \"%s\"; type T<'a> = %s%s; }" % (td.name, td.name, td.name, td.name, lt))
     # Case impl
@@ -627,6 +653,37 @@ def special_types():
         fl = Field("value", 0, STRING if name != "EncOnlySkipLast" else U64)
         td.fields = [sk, fl] if first else [fl, sk]
         out.append(finish(td))
+    # wrappers around nil-capable types.  Box / Cow do not forward is_nil / nil: the field is written
+    # (as null) and must be present.  &T / &mut T forward is_nil: the field is optional like T itself
+    # (encode-only types: references to sized values cannot be decoded).
+    def opaque_fields():
+        return [Field("a", 0, U8), Field("b", 1, boxed(opt(U16))), Field("c", 2, cow_owned(opt(U8))), Field("d", 3, opt(U8)), Field("e", 5, boxed(opt(STRING)), tag=11),
+                Field("g", 6, cow_owned(opt(STRING)))]
+    for name, enc in [("OpaqueNilArr", "array"), ("OpaqueNilMap", "map")]:
+        td = TypeDef(name)
+        td.encoding = enc
+        td.fields = opaque_fields()
+        out.append(finish(td))
+    td = TypeDef("OpaqueNilEnum")
+    td.kind = "enum"
+    td.variants = [("A", 0, "named", "map", None, opaque_fields()[:4]), ("B", 1, "tuple", None, None, [Field("x", 0, cow_owned(opt(U16))), Field("y", 1, boxed(opt(U8)))])]
+    out.append(finish(td))
+    def ref_fields():
+        return [Field("a", 0, U8), Field("r", 1, shared_ref(opt(U16))), Field("m", 2, mut_ref(opt(U16))), Field("s", 4, mut_ref(opt(STRING)), tag=12), Field("t", 5, shared_ref(U8)),
+                Field("u", 6, mut_ref(opt(U8)))]
+    for name, enc in [("EncOnlyRefsArr", "array"), ("EncOnlyRefsMap", "map")]:
+        td = TypeDef(name)
+        td.encoding = enc
+        td.encode_only = True
+        td.lifetime = True
+        td.fields = ref_fields()
+        out.append(finish(td))
+    td = TypeDef("EncOnlyRefsEnum")
+    td.kind = "enum"
+    td.encode_only = True
+    td.lifetime = True
+    td.variants = [("A", 0, "named", "map", None, ref_fields()[:3]), ("B", 1, "tuple", None, None, [Field("x", 0, U8), Field("y", 1, mut_ref(opt(U16))), Field("z", 2, shared_ref(opt(U8)))])]
+    out.append(finish(td))
     # field names a macro is tempted to use for its own locals, in structs and named variants
     def local_names(prefix_tag):
         names = ["tag", "len", "n", "i", "e", "d", "ctx", "buf", "pos", "nil", "ok", "err", "val", "key", "idx", "size"]
